@@ -37,6 +37,10 @@ func (q queryServer) Vote(ctx context.Context, req *types.QueryVoteRequest) (*ty
 		return nil, status.Error(codes.InvalidArgument, "invalid request")
 	}
 
+	if _, err := sdk.AccAddressFromBech32(req.Address); err != nil {
+		return nil, status.Error(codes.InvalidArgument, err.Error())
+	}
+
 	val, found, err := q.k.GetVote(
 		ctx,
 		req.Address,
